@@ -152,3 +152,389 @@ Proof.
       split; [|cbn; discriminate]. cbn [lower map app] in *. fold (lower s) in *.
       rewrite (hostpath_not_colon _ _ (lower_byte_58 c Hc)). rewrite H1, H2, H3. reflexivity.
 Qed.
+
+(* ================= the structural invariant of reachable tables ================= *)
+Section Reach.
+  Variable canon : str -> option str.
+  Variable glob_ok : str -> bool.
+
+  Definition route_sgood (h : str) (r : route) : Prop :=
+    glob_ok (r_path r) = true /\ hostpath (h ++ r_path r) = (h, r_path r) /\ h ++ r_path r <> [].
+  Definition host_sgood (hr : str * list route) : Prop :=
+    lower (fst hr) = fst hr /\ glob_ok (fst hr) = true /\ Forall (route_sgood (fst hr)) (snd hr).
+  (* every stored host is lower-case and compiles as a glob; every stored path compiles; the
+     rendered source  host ++ path  splits back into (host, path) *)
+  Definition sgood (t : table) : Prop := Forall host_sgood t.
+
+  Lemma upd_host_Forall_key (P : str * list route -> Prop) h f t :
+    Forall P t -> (forall rs, P (h, rs) -> P (h, f rs)) -> Forall P (upd_host h f t).
+  Proof.
+    intros H Hf. induction H as [|[k rs] t Hx Ht IH]; cbn [upd_host]; [constructor|].
+    destruct (beq k h) eqn:E; constructor; auto. apply beq_true_eq in E. subst k. auto.
+  Qed.
+
+  Lemma upd_route_sgood h p f rs : (forall r, r_path (f r) = r_path r) ->
+    Forall (route_sgood h) rs -> Forall (route_sgood h) (upd_route p f rs).
+  Proof.
+    intros Hf H. apply upd_route_Forall; auto. intros r Hr. unfold route_sgood in *. now rewrite Hf.
+  Qed.
+
+  Lemma sweep_sgood t : sgood t -> sgood (sweep t).
+  Proof.
+    unfold sgood, sweep. intros H. apply Forall_forall. intros [h rs] Hin. apply filter_In in Hin as [Hin _].
+    apply in_map_iff in Hin as ([h' rs'] & Heq & Hin). cbn [fst snd] in Heq. inversion Heq; subst.
+    rewrite Forall_forall in H. destruct (H _ Hin) as (Hl & Hg & Hr). cbn [fst snd] in *. repeat split; auto.
+    apply Forall_forall. intros r Hr'. apply filter_In in Hr' as [Hr' _]. rewrite Forall_forall in Hr. auto.
+  Qed.
+
+  Lemma filter_all_sgood skip t : sgood t -> sgood (filter_all skip t).
+  Proof.
+    unfold sgood, filter_all. intros H. apply Forall_forall. intros [h rs] Hin.
+    apply in_map_iff in Hin as ([h' rs'] & Heq & Hin). cbn [fst snd] in Heq. inversion Heq; subst.
+    rewrite Forall_forall in H. destruct (H _ Hin) as (Hl & Hg & Hr). cbn [fst snd] in *. repeat split; auto.
+    apply Forall_forall. intros r Hr'. apply in_map_iff in Hr' as (r0 & <- & Hr0). rewrite Forall_forall in Hr.
+    exact (Hr _ Hr0).
+  Qed.
+
+  Lemma filter_one_sgood h p skip t : sgood t -> sgood (filter_one h p skip t).
+  Proof.
+    intros H. unfold filter_one. apply upd_host_Forall_key; auto. intros rs (Hl & Hg & Hr). cbn [fst snd] in *.
+    repeat split; auto. now apply upd_route_sgood.
+  Qed.
+
+  Lemma add_route_sgood t d t' : sgood t -> add_route canon glob_ok t d = Ok t' -> sgood t'.
+  Proof.
+    intros Hs. unfold add_route. destruct (hostpath (d_src d)) as [host0 path] eqn:Eh.
+    destruct (d_src d) as [|c s] eqn:Es; [discriminate|]. destruct (d_dst d); [discriminate|].
+    destruct (canon _) as [url|]; [|discriminate].
+    assert (Hsb : hostpath (lower host0 ++ path) = (lower host0, path) /\ lower host0 ++ path <> []).
+    { apply (hostpath_split_back (c :: s)); [discriminate | exact Eh]. }
+    set (g := add_target (d_svc d) url (d_w d) (d_tags d) (d_opts d)).
+    assert (Hg : forall r, r_path (g r) = r_path r) by (intros; apply add_target_path).
+    destruct (lookup (lower host0) t) as [rs|] eqn:EL.
+    - destruct (find path rs) as [r|] eqn:EF.
+      + intros H; inversion H; subst t'. apply upd_host_Forall_key; auto. intros rs' (Hl & Hgl & Hr). cbn [fst snd] in *.
+        repeat split; auto. now apply upd_route_sgood.
+      + destruct (glob_ok path) eqn:Egp; [|discriminate]. intros H; inversion H; subst t'.
+        apply upd_host_Forall_key; auto. intros rs' (Hl & Hgl & Hr). cbn [fst snd] in *. repeat split; auto.
+        apply Forall_app. split; auto. constructor; [|constructor]. unfold route_sgood. rewrite Hg. cbn [r_path]. tauto.
+    - destruct (glob_ok (lower host0)) eqn:Egh; [|discriminate]. destruct (glob_ok path) eqn:Egp; [|discriminate].
+      intros H; inversion H; subst t'. apply Forall_app. split; auto. constructor; [|constructor]. unfold host_sgood. cbn [fst snd].
+      split; [apply lower_idem|]. split; auto. constructor; [|constructor]. unfold route_sgood. rewrite Hg. cbn [r_path]. tauto.
+  Qed.
+
+  Lemma apply_def_sgood t d t' : sgood t -> apply_def canon glob_ok t d = Ok t' -> sgood t'.
+  Proof.
+    intros Hs. unfold apply_def. destruct (d_cmd d).
+    - now apply add_route_sgood.
+    - unfold del_route. destruct (d_tags d).
+      2:{ intros H; inversion H. now apply sweep_sgood, filter_all_sgood. }
+      destruct (d_src d), (d_dst d); try (destruct (canon _); [|discriminate]);
+        try (intros H; inversion H; now apply sweep_sgood, filter_all_sgood);
+        destruct (hostpath _); cbn zeta; destruct (get_route _ _ _); intros H; inversion H; subst; auto;
+        now apply sweep_sgood, filter_one_sgood.
+    - unfold weigh_route. destruct (hostpath _). cbn zeta. destruct (d_src d); [discriminate|].
+      destruct (get_route _ _ _); [|discriminate]. destruct (_ =? 0); [discriminate|]. intros H; inversion H; subst.
+      apply upd_host_Forall_key; auto. intros rs' (Hl & Hgl & Hr). cbn [fst snd] in *. repeat split; auto.
+      now apply upd_route_sgood.
+  Qed.
+
+  Lemma run_from_sgood ds : forall t t', sgood t -> run_from canon glob_ok t ds = Ok t' -> sgood t'.
+  Proof.
+    induction ds as [|d ds IH]; cbn [run_from]; intros t t' Hs H; [now inversion H; subst|].
+    destruct (apply_def canon glob_ok t d) as [t1| |] eqn:E; cbn [bind] in H; try discriminate.
+    eapply IH; [|exact H]. eapply apply_def_sgood; eauto.
+  Qed.
+
+  Theorem run_sgood ds t : run canon glob_ok ds = Ok t -> sgood t.
+  Proof. apply run_from_sgood. constructor. Qed.
+
+  (* the clause "host names are treated case-insensitively" needs this: stored hosts ARE lower-case,
+     so comparing a stored host with the lower-cased host of a command is comparing modulo case *)
+  Theorem run_hosts_lower ds t : run canon glob_ok ds = Ok t -> Forall (fun hr => lower (fst hr) = fst hr) t.
+  Proof.
+    intros H. apply run_sgood in H. eapply Forall_impl; [|exact H]. intros hr (Hl & _). exact Hl.
+  Qed.
+End Reach.
+
+(* ================= the text round trip for reachable tables ================= *)
+Section ReachRoundTrip.
+  Variable canon : str -> option str.
+  Variable glob_ok : str -> bool.
+
+  (* what remains a hypothesis per target: it is about the target's own content, not derivable
+     from reachability (a command may carry any URL, tag, weight) *)
+  Definition targets_good (t : table) : Prop :=
+    forall h rs r, In (h, rs) t -> In r rs -> Forall (tg_good canon) (r_targets r) /\ twin_free (r_targets r).
+
+  Lemma table_good_of t : inv t -> sgood glob_ok t -> targets_good t -> table_good canon glob_ok t.
+  Proof.
+    intros [Hd Hi] Hs Ht. split; auto. apply Forall_forall. intros [h rs] Hin. unfold sgood in Hs.
+    rewrite Forall_forall in Hi, Hs. destruct (Hi _ Hin) as (Hne & Hnd & Hall). destruct (Hs _ Hin) as (Hl & Hg & Hr).
+    cbn [fst snd] in *. unfold host_good. cbn [fst snd]. repeat split; auto.
+    apply Forall_forall. intros r Hr'. rewrite Forall_forall in Hall, Hr. destruct (Hr _ Hr') as (Hgp & Hhp & Hsrc).
+    destruct (Ht h rs r Hin Hr') as [Htg Htw]. unfold route_good. repeat split; auto.
+  Qed.
+
+  Lemma insert_desc_paths r rs x : In x (map r_path (insert_desc r rs)) <-> x = r_path r \/ In x (map r_path rs).
+  Proof.
+    rewrite !in_map_iff. split.
+    - intros (y & <- & Hy). apply insert_desc_in in Hy as [->|Hy]; [now left | right; now exists y].
+    - intros [->|(y & <- & Hy)]; [exists r | exists y]; split; auto; apply insert_desc_in; auto.
+  Qed.
+
+  Lemma insert_desc_nodup r rs : NoDup (map r_path rs) -> ~ In (r_path r) (map r_path rs) ->
+    NoDup (map r_path (insert_desc r rs)).
+  Proof.
+    induction rs as [|y rs IH]; cbn [insert_desc map]; intros Hd Hn.
+    - constructor; auto.
+    - destruct (str_ltb _ _); cbn [map]; [constructor; auto|]. inversion Hd; subst. constructor.
+      + rewrite insert_desc_paths. intros [E|Hin]; [apply Hn; left; now rewrite E | auto].
+      + apply IH; auto. intros ?. apply Hn. now right.
+  Qed.
+
+  Lemma sort_routes_nodup rs : NoDup (map r_path rs) -> NoDup (map r_path (sort_routes rs)).
+  Proof.
+    induction rs as [|r rs IH]; intros Hd; [constructor|].
+    change (sort_routes (r :: rs)) with (insert_desc r (sort_routes rs)). cbn [map] in Hd.
+    inversion Hd; subst. apply insert_desc_nodup; [apply IH; assumption|]. intros Hin. apply in_map_iff in Hin as (y & Hy & Hin).
+    apply (proj1 (sort_routes_in _ _)) in Hin. match goal with H : ~ In _ _ |- _ => apply H end.
+    apply in_map_iff. exists y. auto.
+  Qed.
+
+  Lemma table_good_sort t : table_good canon glob_ok t -> table_good canon glob_ok (sort_table t).
+  Proof.
+    intros [Hd Hg]. unfold sort_table. split.
+    - rewrite map_map. cbn [fst]. exact Hd.
+    - apply Forall_forall. intros [h rs] Hin. apply in_map_iff in Hin as ([h' rs'] & Heq & Hin). cbn [fst snd] in Heq.
+      inversion Heq; subst. rewrite Forall_forall in Hg. destruct (Hg _ Hin) as (Hl & Hgh & Hne & Hnd & Hr). cbn [fst snd] in *.
+      unfold host_good. cbn [fst snd]. repeat split; auto.
+      + destruct rs' as [|r rs']; [congruence|]. intros E. assert (Hin' : In r (sort_routes (r :: rs'))) by (apply sort_routes_in; now left).
+        rewrite E in Hin'. destruct Hin'.
+      + now apply sort_routes_nodup.
+      + apply Forall_forall. intros r Hr'. apply (proj1 (sort_routes_in _ _)) in Hr'. rewrite Forall_forall in Hr. auto.
+  Qed.
+
+  Lemma in_sort_table h rs t : In (h, rs) (sort_table t) -> exists rs0, In (h, rs0) t /\ rs = sort_routes rs0.
+  Proof.
+    unfold sort_table. intros Hin. apply in_map_iff in Hin as ([h' rs'] & Heq & Hin). cbn [fst snd] in Heq.
+    inversion Heq; subst. now exists rs'.
+  Qed.
+
+  (* C05, text round trip for the tables NewTable actually returns: the structural part of the
+     domain (unique lower-case hosts that compile, unique paths that compile, sources that split
+     back, no empty route or host) is DERIVED from reachability; what is assumed is about the
+     targets' own content: [tg_good] (URL text non-empty and stable), [twin_free], [text_good]. *)
+  Theorem roundtrip_reachable pweight text t :
+    new_table pweight canon glob_ok text = Ok t ->
+    targets_good t -> text_good t ->
+    new_table pweight_dec canon glob_ok (render t) = Ok (sort_table (reorder t))
+    /\ forall h, lookup h (sort_table (reorder t)) = option_map sort_routes (lookup h t).
+  Proof.
+    intros Hnt Htg Htext. apply render_parse_roundtrip; auto.
+    unfold new_table in Hnt. destruct (parse pweight text) as [ds| |]; cbn [bind] in Hnt; try discriminate.
+    destruct (run canon glob_ok ds) as [t0| |] eqn:Er; cbn [bind] in Hnt; try discriminate. inversion Hnt; subst t.
+    apply table_good_of.
+    - (* inv of the sorted table, via table-level facts of t0 *)
+      pose proof (run_inv _ _ _ _ Er) as [Hd Hi]. split; [unfold sort_table; rewrite map_map; exact Hd|].
+      apply Forall_forall. intros [h rs] Hin. apply in_sort_table in Hin as (rs0 & Hin & ->). cbn [snd].
+      rewrite Forall_forall in Hi. destruct (Hi _ Hin) as (Hne & Hnd & Hall). cbn [snd] in *. repeat split.
+      + destruct rs0 as [|r rs0]; [congruence|]. intros E. assert (Hin' : In r (sort_routes (r :: rs0))) by (apply sort_routes_in; now left).
+        rewrite E in Hin'. destruct Hin'.
+      + now apply sort_routes_nodup.
+      + apply Forall_forall. intros r Hr. apply (proj1 (sort_routes_in _ _)) in Hr. rewrite Forall_forall in Hall. auto.
+    - pose proof (run_sgood _ _ _ _ Er) as Hs. apply Forall_forall. intros [h rs] Hin.
+      apply in_sort_table in Hin as (rs0 & Hin & ->). unfold sgood in Hs. rewrite Forall_forall in Hs.
+      destruct (Hs _ Hin) as (Hl & Hg & Hr). unfold host_sgood. cbn [fst snd] in *. repeat split; auto.
+      apply Forall_forall. intros r Hr'. apply (proj1 (sort_routes_in _ _)) in Hr'. rewrite Forall_forall in Hr. auto.
+    - exact Htg.
+  Qed.
+End ReachRoundTrip.
+
+(* ================= de-duplication in general position; the whole sequence ================= *)
+Lemma lookup_of_in h rs t : NoDup (map fst t) -> In (h, rs) t -> lookup h t = Some rs.
+Proof.
+  induction t as [|[k rs'] t IH]; intros Hd Hin; [destruct Hin|]. cbn [map fst] in Hd. inversion Hd; subst.
+  cbn [lookup]. destruct (beq k h) eqn:E.
+  - apply beq_true_eq in E. subst k. destruct Hin as [Heq|Hin]; [now inversion Heq|].
+    exfalso. apply H1. apply in_map_iff. now exists (h, rs).
+  - destruct Hin as [Heq|Hin]; [inversion Heq; subst; now rewrite beq_refl in E | auto].
+Qed.
+
+Lemma find_of_in r rs : NoDup (map r_path rs) -> In r rs -> find (r_path r) rs = Some r.
+Proof.
+  induction rs as [|x rs IH]; intros Hd Hin; [destruct Hin|]. cbn [map] in Hd. inversion Hd; subst.
+  cbn [find]. destruct (beq (r_path x) (r_path r)) eqn:E.
+  - apply beq_true_eq in E. destruct Hin as [->|Hin]; [reflexivity|]. exfalso. apply H1. rewrite E. now apply in_map.
+  - destruct Hin as [->|Hin]; [now rewrite beq_refl in E | auto].
+Qed.
+
+(* the triples at (h, p) are exactly the targets of the route stored there *)
+Lemma filter_at_route h p (f : target -> bool) t r : uniq t -> get_route h p t = Some r ->
+  filter (sel_at h p f) (flat t) = map (fun tg => (h, p, tg)) (filter f (r_targets r)).
+Proof.
+  intros [Hd Hp] Eg. unfold get_route in Eg. destruct (lookup h t) as [rs|] eqn:EL; [|discriminate].
+  destruct (lookup_split _ _ _ EL) as (a & b & E & Hn & _). subst t.
+  destruct (find_split _ _ _ Eg) as (a' & b' & -> & Hpr & Hn' & _).
+  rewrite map_app in Hd. cbn [map fst] in Hd. apply NoDup_remove_2 in Hd.
+  apply Forall_app in Hp as [_ Hp]. inversion Hp as [|? ? Hrs _]; subst. cbn [snd] in Hrs.
+  rewrite map_app in Hrs. cbn [map] in Hrs. apply NoDup_remove_2 in Hrs.
+  assert (Hnil : forall l, (forall x, In x l -> ~ at_hp h (r_path r) x) -> filter (sel_at h (r_path r) f) l = []).
+  { intros l Hl. induction l as [|x l IH]; auto. cbn [filter].
+    assert (Hx : sel_at h (r_path r) f x = false).
+    { unfold sel_at. specialize (Hl x (or_introl eq_refl)). unfold at_hp in Hl.
+      destruct (beq (fst (fst x)) h) eqn:E1; auto. destruct (beq (snd (fst x)) (r_path r)) eqn:E2; auto.
+      apply beq_true_eq in E1, E2. tauto. }
+    rewrite Hx. apply IH. intros y Hy. apply Hl. now right. }
+  rewrite !flat_app, !flat_cons, !flat_routes_app, !flat_routes_cons, !filter_app'.
+  rewrite (Hnil (flat a)). 2:{ intros x Hx [Hh _]. apply flat_hosts in Hx. congruence. }
+  rewrite (Hnil (flat b)). 2:{ intros x Hx [Hh _]. apply flat_hosts in Hx. apply Hd, in_or_app. right. congruence. }
+  rewrite (Hnil (flat_routes h a')). 2:{ intros x Hx [_ Hq]. apply flat_routes_paths in Hx as [_ Hx]. congruence. }
+  rewrite (Hnil (flat_routes h b')). 2:{ intros x Hx [_ Hq]. apply flat_routes_paths in Hx as [_ Hx]. apply Hrs, in_or_app. right. congruence. }
+  cbn [app]. rewrite !app_nil_r, filter_map'. f_equal. apply filter_ext. intros tg. unfold sel_at. cbn [fst snd]. now rewrite !beq_refl.
+Qed.
+
+Lemma existsb_filter {A} (f : A -> bool) l : existsb f l = negb (match filter f l with [] => true | _ => false end).
+Proof. induction l as [|x l IH]; [reflexivity|]. cbn [existsb filter]. destruct (f x); auto. Qed.
+
+Section Sequence.
+  Variable canon : str -> option str.
+  Variable glob_ok : str -> bool.
+
+  (* is a target with the command's service, URL, weight and tags already stored at (h, p)? *)
+  Definition add_key_present (d : def) (url : str) (l : list (str * str * target)) : bool :=
+    existsb (sel_at (lower (fst (hostpath (d_src d)))) (snd (hostpath (d_src d)))
+                    (same_target (d_svc d) url (w_clamp (d_w d)) (d_tags d))) l.
+
+  (* add, in general position (not only "the same command twice"): the command is absorbed iff a
+     target with the same key is stored under its (host, path), wherever in the table and however
+     it got there; otherwise exactly one triple is inserted *)
+  Theorem add_route_spec t d t1 : inv t -> add_route canon glob_ok t d = Ok t1 ->
+    exists url, canon (d_dst d) = Some url /\
+    if add_key_present d url (flat t) then t1 = t
+    else exists X Y, flat t = X ++ Y /\
+           flat t1 = X ++ (lower (fst (hostpath (d_src d))), snd (hostpath (d_src d)),
+                           new_target (d_svc d) url (d_w d) (d_tags d) (d_opts d)) :: Y.
+  Proof.
+    intros Hinv H. pose proof (inv_uniq _ Hinv) as Hu.
+    destruct (add_accumulates canon glob_ok t d t1 H) as (url & Hc & Hcases). exists url. split; auto.
+    cbn zeta in Hcases. unfold add_key_present.
+    set (h := lower (fst (hostpath (d_src d)))) in *. set (p := snd (hostpath (d_src d))) in *.
+    set (f := same_target (d_svc d) url (w_clamp (d_w d)) (d_tags d)) in *.
+    (* decide the key by looking at the route, as the code does *)
+    unfold add_route in H. destruct (hostpath (d_src d)) as [host0 path] eqn:Eh. cbn [fst snd] in h, p. subst h p.
+    destruct (d_src d); [discriminate|]. destruct (d_dst d); [discriminate|]. rewrite Hc in H.
+    destruct (get_route (lower host0) path t) as [r|] eqn:Eg.
+    - rewrite existsb_filter, (filter_at_route _ _ f t r Hu Eg).
+      unfold get_route in Eg. destruct (lookup (lower host0) t) as [rs|] eqn:EL; [|discriminate]. rewrite Eg in H.
+      inversion H; subst t1. clear H.
+      destruct (lookup_split _ _ _ EL) as (a & b & Et & Hn & Hup). destruct (find_split _ _ _ Eg) as (a' & b' & Ers & Hpr & Hn' & Hup').
+      destruct (add_target_cases (d_svc d) url (d_w d) (d_tags d) (d_opts d) r) as [[E Er]|[E Er]]; fold f in E.
+      + rewrite existsb_filter in E. destruct (filter f (r_targets r)); [discriminate|]. cbn [map negb].
+        rewrite Hup, Hup', Er. now rewrite <- Ers, <- Et.
+      + rewrite existsb_filter in E. destruct (filter f (r_targets r)); [|discriminate]. cbn [map negb].
+        destruct Hcases as [Hl|[Hr _]]; [exact Hl|].
+        (* t1 = t would mean the route did not grow *)
+        exfalso. rewrite Hup, Hup', Er in Hr. rewrite Et, Ers in Hr.
+        apply app_inv_head in Hr. inversion Hr as [Hr']. apply app_inv_head in Hr'. inversion Hr' as [Hr''].
+        destruct r as [rp rt]. cbn [r_path r_targets] in Hr''. inversion Hr'' as [Hlen].
+        apply (f_equal (@length target)) in Hlen. rewrite app_length in Hlen. cbn [length] in Hlen. lia.
+    - assert (Ex : existsb (sel_at (lower host0) path f) (flat t) = false).
+      { destruct (existsb (sel_at (lower host0) path f) (flat t)) eqn:E; [|reflexivity]. exfalso.
+        apply existsb_exists in E as (x & Hx & Hs). pose proof (flat_no_route _ _ _ Hu Eg x Hx) as Hn.
+        unfold at_hp, sel_at in *. apply andb_true_iff in Hs as [Hs _]. apply andb_true_iff in Hs as [E1 E2].
+        apply beq_true_eq in E1, E2. tauto. }
+      rewrite Ex. destruct Hcases as [Hl|[_ (tg & Hin & Hs)]]; [exact Hl|].
+      exfalso. assert (Hex : existsb (sel_at (lower host0) path f) (flat t) = true).
+      { apply existsb_exists. exists (lower host0, path, tg). split; auto. unfold sel_at. cbn [fst snd]. now rewrite !beq_refl. }
+      congruence.
+  Qed.
+End Sequence.
+
+(* ================= the whole command sequence against a list-level specification ================= *)
+Lemma perm_filter {A} (f : A -> bool) l l' : Permutation l l' -> Permutation (filter f l) (filter f l').
+Proof.
+  induction 1; cbn [filter]; auto.
+  - destruct (f x); auto.
+  - destruct (f x), (f y); auto. constructor.
+  - eapply Permutation_trans; eauto.
+Qed.
+
+Lemma perm_existsb {A} (f : A -> bool) l l' : Permutation l l' -> existsb f l = existsb f l'.
+Proof.
+  intros H. destruct (existsb f l') eqn:E.
+  - apply existsb_exists in E as (x & Hx & Hf). apply existsb_exists. exists x. split; auto.
+    eapply Permutation_in; [apply Permutation_sym; exact H | exact Hx].
+  - destruct (existsb f l) eqn:E'; auto. apply existsb_exists in E' as (x & Hx & Hf).
+    assert (existsb f l' = true) by (apply existsb_exists; exists x; split; auto; eapply Permutation_in; eauto). congruence.
+Qed.
+
+Section SequenceSpec.
+  Variable canon : str -> option str.
+  Variable glob_ok : str -> bool.
+
+  (* The documented meaning of the three commands on the CONTENT of a table, a list of
+     (host, path, target) triples read as a multiset: add puts one triple unless its key is there,
+     del keeps the unselected triples, weight re-weighs the selected ones (and must select one).
+     No table structure, no lookup, no update-in-place: independent of the model's algorithm. *)
+  Definition spec_step (l : list (str * str * target)) (d : def) : option (list (str * str * target)) :=
+    match d_cmd d with
+    | CmdAdd =>
+        match canon (d_dst d) with
+        | None => None
+        | Some url =>
+            if add_key_present d url l then Some l
+            else Some (l ++ [(lower (fst (hostpath (d_src d))), snd (hostpath (d_src d)),
+                              new_target (d_svc d) url (d_w d) (d_tags d) (d_opts d))])
+        end
+    | CmdDel => Some (filter (fun x => negb (del_selects_ci canon d x)) l)
+    | CmdWeight =>
+        let n := N.of_nat (length (filter (weight_selects_ci d) l)) in
+        if n =? 0 then None
+        else Some (map (fun x => if weight_selects_ci d x then reweigh (w_divn (d_w d) n) x else x) l)
+    end.
+
+  Fixpoint spec_run (l : list (str * str * target)) (ds : list def) : option (list (str * str * target)) :=
+    match ds with
+    | [] => Some l
+    | d :: ds' => match spec_step l d with Some l' => spec_run l' ds' | None => None end
+    end.
+
+  Lemma step_meets_spec t0 l0 d t1 : inv t0 -> Permutation (flat t0) l0 ->
+    apply_def canon glob_ok t0 d = Ok t1 ->
+    exists l1, spec_step l0 d = Some l1 /\ Permutation (flat t1) l1.
+  Proof.
+    intros Hinv Hp H. unfold apply_def in H. unfold spec_step. destruct (d_cmd d).
+    - destruct (add_route_spec canon glob_ok t0 d t1 Hinv H) as (url & Hc & Hs). rewrite Hc.
+      unfold add_key_present in *. rewrite <- (perm_existsb _ _ _ Hp).
+      destruct (existsb _ (flat t0)).
+      + subst t1. eauto.
+      + destruct Hs as (X & Y & E0 & E1). eexists. split; [reflexivity|]. rewrite E1.
+        eapply Permutation_trans; [apply Permutation_sym, Permutation_middle|].
+        eapply Permutation_trans; [|apply Permutation_cons_append]. constructor. now rewrite <- E0.
+    - eexists. split; [reflexivity|]. rewrite (del_precise canon t0 d t1 Hinv H). now apply perm_filter.
+    - destruct (weight_only_matching t0 d t1 Hinv H) as (Hn & Hf & _). cbn zeta in *.
+      assert (El : length (filter (weight_selects_ci d) l0) = length (filter (weight_selects_ci d) (flat t0))).
+      { apply Permutation_length, Permutation_sym, perm_filter, Hp. }
+      rewrite El. destruct (_ =? 0) eqn:E0; [apply N.eqb_eq in E0; congruence|].
+      eexists. split; [reflexivity|]. rewrite Hf. now apply Permutation_map.
+  Qed.
+
+  Lemma run_from_meets_spec ds : forall t0 l0 t, inv t0 -> Permutation (flat t0) l0 ->
+    run_from canon glob_ok t0 ds = Ok t -> exists l, spec_run l0 ds = Some l /\ Permutation (flat t) l.
+  Proof.
+    induction ds as [|d ds IH]; intros t0 l0 t Hinv Hp H; cbn [run_from spec_run] in *.
+    - inversion H; subst. eauto.
+    - destruct (apply_def canon glob_ok t0 d) as [t1| |] eqn:E; cbn [bind] in H; try discriminate.
+      destruct (step_meets_spec t0 l0 d t1 Hinv Hp E) as (l1 & Hs & Hp1). rewrite Hs.
+      apply (IH t1 l1 t); auto. eapply apply_def_inv; eauto.
+  Qed.
+
+  (* "Applying a sequence of route add, del and weight commands yields exactly the table the
+     documented command semantics prescribe": the content of the table any command sequence
+     builds is, as a multiset of (host, path, target) triples, what the list-level semantics
+     computes -- for every sequence, of any length. *)
+  Theorem run_meets_spec ds t : run canon glob_ok ds = Ok t ->
+    exists l, spec_run [] ds = Some l /\ Permutation (flat t) l.
+  Proof. apply run_from_meets_spec; [apply inv_nil | constructor]. Qed.
+End SequenceSpec.
